@@ -936,6 +936,10 @@ func main() {
 	}
 
 	t0 = time.Now()
+	longBatches()
+	phase["long-batches"] = time.Since(t0).Seconds()
+
+	t0 = time.Now()
 	var st stats
 	errorShapes(&st, nMax)
 	st.flush()
@@ -987,4 +991,104 @@ func main() {
 		"under real randomness and under the chosen tapes a correct implementation fails a case only if a fixed non-trivial linear relation between its coefficients and the harness's independent random scalars holds (probability about 2^-128 or less)",
 		"Go toolchain and math/big are trusted")
 	run.Finish()
+}
+
+
+// longBatches: list lengths around the powers of two up to 129 (the verification tree splits at
+// len/2 and the C layer handles entries in fixed-size groups) under a fixed set of invalid-position
+// patterns; per-index verdict = "the entry was left untouched" (real crypto/rand).
+func longBatches() {
+	lens := []int{8, 9, 15, 16, 17, 31, 32, 33, 64, 65, 128, 129}
+	if !run.Thorough() {
+		lens = []int{8, 9, 16, 17, 33, 65}
+	}
+	patterns := []string{"all-valid", "first-invalid", "last-invalid", "middle-invalid", "cancelling-pair-across-the-middle", "cancelling-pair-first-last", "all-invalid", "odd-positions-invalid", "last-malformed", "first-non-G1", "last-non-G1", "middle-identity-key"}
+	type job struct {
+		n   int
+		pat string
+	}
+	var jobs []job
+	for _, n := range lens {
+		for _, p := range patterns {
+			jobs = append(jobs, job{n, p})
+		}
+	}
+	run.Set("long_batch_lengths", lens)
+	run.Set("long_batch_patterns", patterns)
+	base := mod(new(big.Int).Add(extraSK, big.NewInt(77777)))
+	ev.Par(len(jobs), func(ji int) {
+		j := jobs[ji]
+		var st stats
+		defer st.flush()
+		n := j.n
+		pks := make([]crypto.PublicKey, n)
+		sigs := make([]crypto.Signature, n)
+		want := make([]bool, n)
+		pts := make([]refbls.G1, n)
+		for i := 0; i < n; i++ {
+			k := mod(new(big.Int).Add(base, big.NewInt(int64(31*i))))
+			pks[i] = libPK(k)
+			pts[i] = hPoint.Mul(k)
+			sigs[i] = enc(pts[i])
+			want[i] = true
+		}
+		bad := func(i int) { sigs[i], want[i] = enc(pts[i].Add(d1)), false }
+		switch j.pat {
+		case "first-invalid":
+			bad(0)
+		case "last-invalid":
+			bad(n - 1)
+		case "middle-invalid":
+			bad(n / 2)
+		case "cancelling-pair-across-the-middle":
+			sigs[n/2-1], want[n/2-1] = enc(pts[n/2-1].Add(d1)), false
+			sigs[n/2], want[n/2] = enc(pts[n/2].Add(d1.Neg())), false
+		case "cancelling-pair-first-last":
+			sigs[0], want[0] = enc(pts[0].Add(d1)), false
+			sigs[n-1], want[n-1] = enc(pts[n-1].Add(d1.Neg())), false
+		case "all-invalid":
+			for i := range sigs {
+				bad(i)
+			}
+		case "odd-positions-invalid":
+			for i := 1; i < n; i += 2 {
+				bad(i)
+			}
+		case "last-malformed":
+			sigs[n-1], want[n-1] = withByte0(sigs[n-1], 0x7f, 0), false
+		case "first-non-G1":
+			sigs[0], want[0] = enc(pts[0].Add(t3)), false
+		case "last-non-G1":
+			sigs[n-1], want[n-1] = enc(pts[n-1].Add(tCof)), false
+		case "middle-identity-key":
+			pks[n/2], want[n/2] = idObj[1], false
+		}
+		got, err := crypto.BatchVerifyBLSSignaturesOneMessage(pks, sigs, msg, newHasher())
+		st.add("evaluations", 1)
+		st.add("outcome/long/"+j.pat, 1)
+		ok := err == nil && len(got) == n
+		firstBad := -1
+		if ok {
+			for i := range got {
+				if got[i] != want[i] {
+					ok = false
+					firstBad = i
+					break
+				}
+			}
+		}
+		if !ok {
+			what := "error-or-length"
+			if firstBad >= 0 {
+				what = "false-for-valid"
+				if !want[firstBad] {
+					what = "true-for-invalid"
+				}
+			}
+			run.Violation(fmt.Sprintf("batch:long:%s:%s", what, j.pat),
+				fmt.Sprintf("BatchVerifyBLSSignaturesOneMessage on %d entries (%s): err=%v, first wrong index %d", n, j.pat, err, firstBad),
+				map[string]any{"length": n, "pattern": j.pat, "first_wrong_index": firstBad, "rule": "sk_i = base + 31*i; signature i = [sk_i]H(m); invalid = +D (a G1 point), cancelling pairs +D/-D", "base_scalar": ev.Hex(refbls.ScalarBytes(base))})
+		}
+		run.Distinct(fmt.Sprintf("long/%d/%s", n, j.pat))
+	})
 }
